@@ -10,7 +10,7 @@ Inductive ptok :=
 | PDigs (name : string)             (* (?P<name>[0-9]+) *)
 | PSign (name : string)             (* (?P<name>[-+]) *)
 | PGrp (name : string) (s : string) (* (?P<name>literal) *)
-| PUnix (name : string).            (* digits, optional comma or point, optional digits: the %s directive *)
+| PUnix (name : string).            (* optional minus, digits, optional comma or point, optional digits: the %s directive *)
 
 Inductive dtok :=
 | DLit (s : string)
